@@ -22,8 +22,8 @@ ASSUMPTIONS = [
 
 def plan(tier, seed):
     if tier == 'quick':
-        return [{'year': y, 'mode': 'quick'} for y in st.YEARS]
-    specs = []
+        return [{'year': y, 'mode': 'quick'} for y in st.YEARS] + [{'year': y, 'mode': 'solves', 'n': 12} for y in st.YEARS]
+    specs = [{'year': y, 'mode': 'solves', 'n': 300} for y in st.YEARS]
     for y in st.YEARS:
         for lo in range(0, 100000, 12500):
             specs.append({'year': y, 'mode': 'dollars', 'lo': lo, 'hi': lo + 12500})
@@ -55,7 +55,49 @@ def _coalesce(rows):
     return out
 
 
+def run_solves(spec, tier, seed):
+    """The same postcondition on the tax function *as the forms call it*: the name
+    `figure_tax` bound in the year's Form 1040 and capital-gain worksheet modules is
+    wrapped while real returns are solved (catches a form module bound to another
+    year's function, or a wrong argument)."""
+    import importlib
+    from hv import hx, scen
+    year = spec['year']
+    res = Result()
+    mods = [importlib.import_module(f'habutax.forms.ty{year}.f1040'), importlib.import_module(f'habutax.forms.ty{year}.f1040_qualdiv_capgain_tax_wkst')]
+    saved = [(m, m.figure_tax) for m in mods]
+
+    def wrap(orig, modname):
+        def figure_tax(amount, status):
+            got = orig(amount, status)
+            code = st.STATUS_BY_MEMBER.get(getattr(status, 'name', None))
+            res.evaluations += 1
+            res.count('tax_calls_in_solves')
+            if code is not None and 0 <= amount <= st.MAX_SUPPORTED:
+                kind, ref = st.reference_tax(year, code, F(str(amount)))
+                ok = (got == ref) if kind == 'table' else abs(F(got) - ref) <= F(1, 100)
+                res.distinct.add(f'{year}|{code}|solve|{"row" + str(st.table_row(F(str(amount)))[0]) if kind == "table" else "formula"}')
+                if not ok:
+                    res.violation(f'C07|{year}|in-solve-mismatch|{code}|{modname}', f'{year} {modname}: figure_tax({amount}, {status.name}) returned {got}; the {year} schedule gives {float(ref)}',
+                                  {'year': year, 'amount': amount, 'status': status.name, 'module': modname, 'shard': spec})
+            return got
+        return figure_tax
+    for m, orig in saved:
+        m.figure_tax = wrap(orig, m.__name__.split('.')[-1])
+    try:
+        for fam in ('F0', 'F1', 'F2', 'F6', 'F9'):
+            for p in scen.personas(seed, year, fam, spec['n']):
+                scen.solve_persona(p)
+    finally:
+        for m, orig in saved:
+            m.figure_tax = orig
+    res.sample({'year': year, 'mode': 'figure_tax as called by Form 1040 / capital gain worksheet during real solves', 'calls': res.counters.get('tax_calls_in_solves', 0)})
+    return res
+
+
 def run_shard(spec, tier, seed):
+    if spec['mode'] == 'solves':
+        return run_solves(spec, tier, seed)
     from hv import hx
     year = spec['year']
     res = Result()
@@ -190,6 +232,8 @@ def finalize(res, tier):
     need = 3 * 4 * 1000
     if len(res.distinct) < need:
         res.inconclusive.append(f'only {len(res.distinct)} distinct cells observed (< {need})')
+    if res.counters.get('tax_calls_in_solves', 0) < 100:
+        res.inconclusive.append('the tax function was observed fewer than 100 times inside real solves')
     out = {'exhaustive': tier == 'thorough'}
     if tier == 'thorough':
         rng = res.extra.get('exhaustive_dollar_ranges', [])
